@@ -21,7 +21,7 @@ class Builder:
 
     def hooks(self, I, n, kind, name, did, obj, args, env):
         t = (dqt(obj) + ' ' + qt(obj)) if obj is not None else ''
-        if kind == 'method' and name == 'createLabelMap':
+        if kind == 'method' and name == 'createLabelMap' and not getattr(self, 'real_label_map', True):
             this = env['this']
             m = {}
             for d in this.fields['program'].items:
@@ -88,6 +88,22 @@ class Builder:
 
     def codegen(self, items):
         cg = Obj('hexasm::CodeGen', {'program': Vec(items), 'programSizeBytes': const(64, False, 0)}, 'CodeGen')
+        # members a change adds start out default-constructed (containers empty, scalars zero)
+        rec = self.idx.records.get('hexasm::CodeGen')
+        for fd in (rec.fields if rec is not None else []):
+            if fd['name'] in cg.fields or fd['name'] == 'labelMap':
+                continue
+            t = dqt(fd) + ' ' + qt(fd)
+            if 'vector<' in t:
+                cg.fields[fd['name']] = Vec([])
+            elif 'map<' in t or 'set<' in t:
+                cg.fields[fd['name']] = {}
+            elif 'basic_string' in t or 'std::string' in t:
+                cg.fields[fd['name']] = ('str', '')
+            else:
+                ti = ivinterp.tinfo(fd, self.idx) if hasattr(ivinterp, 'tinfo') else None
+                if ti:
+                    cg.fields[fd['name']] = const(ti[0], ti[1], 0)
         m = {}
         for d in items:
             if 'label' in d.fields and self.idx.derives_from(d.cls, 'hexasm::Label'):
@@ -113,6 +129,17 @@ class Builder:
 
     def layout(self, items):
         cg = self.codegen(items)
+        # what the constructor runs before the layout: the label map is built by the real createLabelMap when it can be interpreted
+        # (a change may make it collect more than the map), otherwise the map prepared by codegen() stands
+        clm = self.idx.func('hexasm::CodeGen::createLabelMap', required=False)
+        if clm is not None and clm.body is not None:
+            saved = dict(cg.fields)
+            try:
+                cg.fields['labelMap'] = {}
+                self.I.invoke(clm, cg, [])
+            except (AnalysisBroken, NeedSplit):
+                cg.fields.clear()
+                cg.fields.update(saved)
         f = self.idx.func('hexasm::CodeGen::resolveLabels')
         self.I.invoke(f, cg, [])
         return cg
@@ -185,6 +212,9 @@ def sequences(B):
         ('DATA+imm+label+DATA', lambda: [B.data(), B.imm('LDAC', 1), B.label('x'), B.data()]),
         ('imm+FUNC+DATA', lambda: [B.imm('LDAC', 1), B.func('tab'), B.data()]),
         ('imm+PROC+label+DATA', lambda: [B.imm('LDAC', 1), B.proc('tab'), B.label('y'), B.data()]),
+        # references to code labels: the label named by an absolute operand is either rejected (unaligned) or laid out where it is emitted
+        ('absref+opr+codelabel+opr (may be rejected)', lambda: [B.ref('LDAC', 'x'), B.opr('ADD'), B.label('x'), B.opr('SUB')]),
+        ('relref+opr+codelabel+opr', lambda: [B.ref('BR', 'x'), B.opr('ADD'), B.label('x'), B.opr('SUB')]),
     ]
 
 
@@ -202,12 +232,19 @@ def rule_layout_emission(rep, idx):
         for name, mk in sequences(B):
             items = mk()
             end = B.label('__end')
-            prog = [B.pad('P', 4 + r, (1 << 20) + r, r)] + items + [end]
+            # sequences with a label operand use a start range on which the operand keeps one encoding length
+            prog = [B.pad('P', 64 + r, 1000 + r, r) if 'codelabel' in name else B.pad('P', 4 + r, (1 << 20) + r, r)] + items + [end]
             try:
                 B.layout(prog)
                 per, endoff, syms = B.emit(items, r)
             except Thrown as e:
+                if 'may be rejected' in name and _is_repo_error(idx, e.what):
+                    rep.add('R5', '%s:start%%4=%d' % (name, r), True, where_l, 'rejected (%s): nothing is emitted' % e.what, nontrivial=False)
+                    continue
                 rep.add('R5', '%s:start%%4=%d' % (name, r), False, where_l, 'unexpected rejection: %s' % e.what)
+                continue
+            except NeedSplit as e:
+                rep.undecided('R5', '%s:start%%4=%d' % (name, r), 'not uniform: %s' % e, where_l)
                 continue
             problems = []
             # layout offsets relative to P
@@ -382,6 +419,9 @@ def rule_absolute(rep, idx):
                 thrown = None
             except Thrown as e:
                 thrown = e.what
+            except NeedSplit as e:
+                rep.undecided('R3', key, 'layout not uniform on the class: %s' % e, where)
+                continue
             if r == 0:
                 if thrown:
                     rep.add('R3', key, False, where, 'aligned reference rejected: %s' % thrown)
